@@ -593,6 +593,30 @@ theorem singleton_routes :
     ("qmi/core/context_singleton.py", "start", "CfgContext") ∈ Gen.conversionCalls ∧
     ("qmi/core/context_singleton.py", "create_config_from_file", "CfgQmi") ∈ Gen.conversionCalls := by decide
 
+/-! ## 6c''. Files: a load depends on the current content of the file and on nothing else -/
+
+/-- **load_after_write**: whatever was loaded, written or handed out before, loading a file gives what its current
+text loads to -/
+theorem load_after_write (jl : List Nat → Option PV) (fs : FS) (f : Str) (t : List Nat) :
+    loadFile jl (fsWrite fs f t) f = loadString jl t := by
+  simp [loadFile, fsWrite, fsRead]
+
+/-- writing one file does not change what another file loads to -/
+theorem load_other_file (jl : List Nat → Option PV) (fs : FS) (f g : Str) (t : List Nat) (h : f ≠ g) :
+    loadFile jl (fsWrite fs f t) g = loadFile jl fs g := by
+  simp [loadFile, fsWrite, fsRead, h]
+
+/-- **dump_file_load_file**: `load_config_file` after `dump_config_file` returns the dumped data (json as parameter),
+also when other files were written in between -/
+theorem dump_file_load_file (jl : List Nat → Option PV) (fs fs' : FS) (f : Str) (kvs : List (Str × PV))
+    (hclean : clean (.dict kvs) = true) (hnd : ¬ HasDupKey (.dict kvs))
+    (hjson : jl (joinLines (render 0 (.dict kvs))) = some (.dict kvs))
+    (hd : dumpFile fs (.dict kvs) f = .ok fs') : loadFile jl fs' f = .ok (.dict kvs) := by
+  obtain ⟨text, h1, h2⟩ := load_dump_roundtrip jl kvs hclean hnd hjson
+  simp only [dumpFile, h1] at hd
+  cases hd
+  rw [load_after_write]; exact h2
+
 /-! ## 6d. Line terminators -/
 
 /-- **strip_newline_style_irrelevant**: `\r`, `\n` (and therefore `\r\n`) are interchangeable line terminators: two
